@@ -1,0 +1,28 @@
+//go:build verif
+
+package rux
+
+// Read-only accessors for the verification harness in /verif (build tag "verif").
+// They add no behaviour: with the tag off this file is not compiled.
+
+// VerifCache returns the router's route cache instance (nil when none was created).
+func (r *Router) VerifCache() *cachedRoutes { return r.cachedRoutes }
+
+// VerifKeys returns the cached keys, most recently used first.
+func (c *cachedRoutes) VerifKeys() []string {
+	c.lock.RLock()
+	defer c.lock.RUnlock()
+
+	keys := make([]string, 0, c.list.Len())
+	for e := c.list.Front(); e != nil; e = e.Next() {
+		keys = append(keys, e.Value.(*cacheNode).Key)
+	}
+	return keys
+}
+
+// VerifMapLen returns the number of entries of the cache's hash map.
+func (c *cachedRoutes) VerifMapLen() int {
+	c.lock.RLock()
+	defer c.lock.RUnlock()
+	return len(c.hashMap)
+}
